@@ -105,7 +105,37 @@ fn edge_streams() -> Vec<(&'static str, Vec<u8>)> {
         ("bare_cr_in_header_block", b"GET / HTTP/1.1\r\nA: b\r\r\n\r\n"),
         ("body_contains_crlfcrlf", b"PATCH / HTTP/1.1\r\nContent-Length: 8\r\n\r\n\r\n\r\nGET GET /n HTTP/1.1\r\n\r\n"),
     ];
-    v.into_iter().map(|(n, b)| (n, b.to_vec())).collect()
+    let mut out: Vec<(&'static str, Vec<u8>)> = v.into_iter().map(|(n, b)| (n, b.to_vec())).collect();
+    // large header sections: the grammar bounds each line, not their number or their sum (the payload
+    // limit is about the body), so heads of several KiB up to more than the default payload limit are requests
+    let big = |nh: usize, hl: usize, body: &[u8], twice: bool| -> Vec<u8> {
+        let mut s = Vec::new();
+        for rep in 0..(if twice { 2 } else { 1 }) {
+            s.extend_from_slice(if body.is_empty() { b"GET" } else { b"PUT" });
+            s.extend_from_slice(format!(" /big{} HTTP/1.1\r\n", rep).as_bytes());
+            for i in 0..nh {
+                let mut l = format!("X-H{}-{}: ", rep, i).into_bytes();
+                while l.len() < hl {
+                    l.push(b'a' + ((l.len() + i) % 26) as u8);
+                }
+                s.extend_from_slice(&l);
+                s.extend_from_slice(b"\r\n");
+            }
+            if !body.is_empty() {
+                s.extend_from_slice(format!("Content-Length: {}\r\n", body.len()).as_bytes());
+            }
+            s.extend_from_slice(b"\r\n");
+            s.extend_from_slice(body);
+        }
+        s
+    };
+    out.push(("head_8k_in_9_lines", big(9, 900, b"", false)));
+    out.push(("head_9k_in_9_lines_of_1022", big(9, 1020, b"", true)));
+    out.push(("head_10k_in_100_lines", big(100, 100, b"body", true)));
+    out.push(("head_30k", big(30, 1000, b"", false)));
+    out.push(("head_60k_above_payload_limit", big(60, 1000, b"xy", true)));
+    out.push(("head_300_short_lines", big(300, 12, b"", true)));
+    out
 }
 
 /// The C02 corpus for base item `i`: valid streams, every single-point corruption at every
